@@ -379,7 +379,32 @@ func flattenArgs(v ssa.Value) ([]argSeg, bool) {
 	for {
 		switch x := v.(type) {
 		case *ssa.Call:
-			if _, ok := builtinCall(x, "append"); !ok || len(x.Call.Args) != 2 {
+			if _, isApp := builtinCall(x, "append"); !isApp {
+				// built by an unexported helper of the package (`s.scriptArgs(indexes)`): the list the
+				// helper returns, in the helper's own terms (field loads of the receiver keep their meaning,
+				// a spread parameter stays a spread)
+				h := x.Call.StaticCallee()
+				if h == nil || h.Blocks == nil || isExportedName(h.Name()) || x.Parent() == nil || h.Pkg != x.Parent().Pkg {
+					return nil, false
+				}
+				var ret ssa.Value
+				n := 0
+				for _, b := range h.Blocks {
+					if r, isr := b.Instrs[len(b.Instrs)-1].(*ssa.Return); isr && len(r.Results) == 1 {
+						ret = r.Results[0]
+						n++
+					}
+				}
+				if n != 1 {
+					return nil, false
+				}
+				inner, ok := flattenArgs(ret)
+				if !ok {
+					return nil, false
+				}
+				return append(inner, segs...), true
+			}
+			if len(x.Call.Args) != 2 {
 				return nil, false
 			}
 			if el := variadicElemsOrdered(x.Call.Args[1]); el != nil {
